@@ -41,6 +41,24 @@ func formatRole(role string, ap netip.AddrPort) string {
 }
 
 // setRole: the flag.Value style entry point (Set on a zero value) of the same parser
+// mustRole: the MustParse... entry points refuse by panicking - which is their way of returning an error
+func mustRole(role, s string) (ap netip.AddrPort, err error) {
+	defer func() {
+		if r := recover(); r != nil {
+			err = fmt.Errorf("%v", r)
+		}
+	}()
+	switch role {
+	case "bind":
+		return types.MustParseBindAddr(s).AddrPort, nil
+	case "broadcast":
+		return types.MustParseBroadcastAddr(s).AddrPort, nil
+	case "listen":
+		return types.MustParseListenAddr(s).AddrPort, nil
+	}
+	return types.MustParseControllerAddr(s).AddrPort, nil
+}
+
 func setRole(role, s string) (netip.AddrPort, error) {
 	switch role {
 	case "bind":
@@ -118,6 +136,7 @@ func runC15(o *opts) (*summary, error) {
 		// (and every text around a port rule, and half of those the parser refuses: Set has to refuse them too)
 		if nset++; nset%4 == 0 || class == "odd" || class == "ports-odd" || class == "ports" || (first["t"] == "err" && nset%2 == 0) {
 			w.put(M{"fn": "parse", "role": role, "s": cps(s), "text": s, "out": parseOutVia(role, s, setRole), "entry": "Set"}, class+"-set", role+"|set|"+s)
+			w.put(M{"fn": "parse", "role": role, "s": cps(s), "text": s, "out": parseOutVia(role, s, mustRole), "entry": "MustParse"}, class+"-must", role+"|must|"+s)
 		}
 	}
 
